@@ -143,7 +143,9 @@ func PlanFor(c *Check, tier string, base uint64, idx int) *Plan {
 	if p.Seed == 0 {
 		p.Seed = seed
 	}
-	return p
+	// every plan is executed in the form a replay file gives it back (one JSON round trip): what a
+	// run does and what its replay does cannot differ by an encoding detail
+	return clonePlan(p)
 }
 
 func hashID(s string) uint64 {
